@@ -103,6 +103,7 @@ pub fn blocks(thorough: bool) -> Vec<Block> {
         b.push(Block::new(u_kind_triples(), pres(&[0]), "7 subsets"));
         b.push(Block::new(u_many(30), pres(&[0]), "7 subsets"));
         b.push(Block::new(u_nested_rep(), pres(&[R]), "7 subsets x r"));
+        b.push(Block::new(u_long_literal_at(), vec![Cfg::new(X), Cfg::new(X | E), Cfg::new(X | G | I)], "x, x+e, x+g+i"));
     } else {
         let b2: Vec<u32> = lattice_le(0, ALL_BITS & !(X | G | E | U | C), 2).iter().map(|c| c.bits).collect();
         b.push(Block::new(Universe::new("U_ab3{a,b}", &["a", "b"], 3, 0, true), pres(&bases8), "7 subsets x 8 bases"));
